@@ -267,11 +267,11 @@ class Stream:
             self._set_cold_stream_min_max_temperatures()
         else:
             if isinstance(self._heat_flow, float | int):
-                if self._heat_flow > 0.0:
-                    # Cold stream
+                if self._heat_flow >= 0.0:
+                    # Cold stream (zero duty: kept consistent as a cold latent stream)
                     self._t_target = self._t_supply + 0.01
                     self._set_cold_stream_min_max_temperatures()
-                elif self._heat_flow < 0.0:
+                else:
                     # Hot stream
                     self._t_target = self._t_supply - 0.01
                     self._set_hot_stream_min_max_temperatures()
